@@ -132,11 +132,18 @@ def http_cases(draw):
 
 
 def depth_cases(tier):
-    depths = [1, 2, 50, 300, 480, 495, 500, 900, 980, 990, 995, 998, 1000, 1005, 1200, 1600, 5000, 200000]
+    parse_limit, frame_limit = reqgen.interpreter_depth_limits()
+    depths = set([1, 2, 50, 300, 480, 495, 500, 5000, 200000])
+    top = min(parse_limit, 20000) + 20
+    # every depth near a limit of the interpreter (and near the fractions of the
+    # frame limit that code spending 2..4 frames per level reaches), a stride elsewhere
+    for centre in (parse_limit, frame_limit, frame_limit // 2, frame_limit // 3, frame_limit // 4):
+        depths.update(range(max(1, centre - 40), centre + 12))
+    depths.update(range(1, top, 1 if tier == "thorough" else 23))
     if tier == "thorough":
-        depths += list(range(300, 1100, 7)) + [20000, 1000000]
-    for body in reqgen.nesting_texts(depths):
-        for version, jc in ((2.0, True), (2.0, False), (1.0, True)):
+        depths.update([20000, 1000000])
+    for body in reqgen.nesting_texts(sorted(depths)):
+        for version, jc in ((2.0, True), (2.0, False), (1.0, True), (1.0, False)):
             yield {"body": body, "version": version, "jsonclass": jc, "mode": "funcs", "cls": "nesting-depth"}
 
 
